@@ -217,13 +217,16 @@ class Program:
         self._load()
         self._link()
         if normalise:
-            from .inline import _logger_names, normalise_local_generators, normalise_subset_quantifiers, normalise_next_or_raise, normalise_partials, normalise_getters, normalise_comprehension_negations, normalise_display_comprehensions, normalise_quantifier_polarity, normalise_expression_walrus, normalise_get_tests, normalise_starred_maps, normalise_self_aliases, normalise_for_else, normalise_numpy_idioms, normalise_self_conditional, normalise_walrus, normalise_match, normalise_dict_union, normalise_first_match, normalise_generator_functions, normalise_unzip_loops, normalise_accumulators, normalise_conditional_assignments, normalise_generator_arguments, normalise_ifexp, normalise_keys, normalise_suppress, strip_logging
+            from .inline import _logger_names, normalise_unused_enumerate, normalise_enumerated_dicts, normalise_get_locals, normalise_dims_copies, normalise_conditional_elements, normalise_local_generators, normalise_subset_quantifiers, normalise_next_or_raise, normalise_partials, normalise_getters, normalise_comprehension_negations, normalise_display_comprehensions, normalise_quantifier_polarity, normalise_expression_walrus, normalise_get_tests, normalise_starred_maps, normalise_self_aliases, normalise_for_else, normalise_numpy_idioms, normalise_self_conditional, normalise_walrus, normalise_match, normalise_dict_union, normalise_first_match, normalise_generator_functions, normalise_unzip_loops, normalise_accumulators, normalise_conditional_assignments, normalise_generator_arguments, normalise_ifexp, normalise_keys, normalise_suppress, strip_logging
             loggers = {m.name: _logger_names(m.tree, m.resolve) for m in self.modules.values()}
             for fi in self.functions.values():
                 if fi.parent is None:
                     self._count('strip_logging', strip_logging(fi.node, loggers.get(fi.module.name, set())))
                     self._count('normalise_self_aliases', normalise_self_aliases(fi.node))
+                    self._count('normalise_dims_copies', normalise_dims_copies(fi.node))
+                    self._count('normalise_enumerated_dicts', normalise_enumerated_dicts(fi.node))
                     self._count('normalise_local_generators', normalise_local_generators(fi.node))
+                    self._count('normalise_unused_enumerate', normalise_unused_enumerate(fi.node))
                     self._count('normalise_subset_quantifiers', normalise_subset_quantifiers(fi.node))
                     self._count('normalise_display_comprehensions', normalise_display_comprehensions(fi.node))
                     self._count('normalise_numpy_idioms', normalise_numpy_idioms(fi.node))
@@ -234,6 +237,7 @@ class Program:
                     self._count('normalise_match', normalise_match(fi.node))
                     self._count('normalise_walrus', normalise_walrus(fi.node))
                     self._count('normalise_expression_walrus', normalise_expression_walrus(fi.node))
+                    self._count('normalise_get_locals', normalise_get_locals(fi.node))
                     self._count('normalise_get_tests', normalise_get_tests(fi.node))
                     self._count('normalise_for_else', normalise_for_else(fi.node))
                     self._count('normalise_next_or_raise', normalise_next_or_raise(fi.node))
@@ -242,17 +246,19 @@ class Program:
                     self._count('normalise_generator_functions', normalise_generator_functions(fi.node))
                     self._count('normalise_unzip_loops', normalise_unzip_loops(fi.node))
                     self._count('normalise_dict_union', normalise_dict_union(fi.node))
+                    self._count('normalise_conditional_elements', normalise_conditional_elements(fi.node))
                     self._count('normalise_first_match', normalise_first_match(fi.node))
                     self._count('normalise_accumulators', normalise_accumulators(fi.node))
                     self._count('normalise_conditional_assignments', normalise_conditional_assignments(fi.node))
                     self._count('normalise_ifexp', normalise_ifexp(fi.node))
                     self._count('normalise_self_conditional', normalise_self_conditional(fi.node))
                     self._count('normalise_generator_arguments', normalise_generator_arguments(fi.node))
-            from .inline import Inliner, load_reference, normalise_compiled_patterns, normalise_literal_loops, normalise_module_constants, normalise_small_quantifiers
+            from .inline import Inliner, load_reference, normalise_record_classes, normalise_compiled_patterns, normalise_literal_loops, normalise_module_constants, normalise_small_quantifiers
             ref = load_reference()
             if ref is not None:
                 for m in self.modules.values():
                     self._count('normalise_module_constants', normalise_module_constants(m.tree, m.name, [fi.node for fi in self.functions.values() if fi.module is m and fi.parent is None], ref))
+                    self._count('normalise_record_classes', normalise_record_classes(m.tree, m.name, [fi.node for fi in self.functions.values() if fi.module is m and fi.parent is None], ref))
             for fi in self.functions.values():
                 if fi.parent is None:
                     self._count('normalise_small_quantifiers', normalise_small_quantifiers(fi.node))
